@@ -345,7 +345,9 @@ def _u6(run: Run) -> None:
                 walk(base)
                 return [_var(nm) for nm in names]
             if isinstance(base, _T) and attr in ("evalf", "n"):
-                return _app("evalf", base)
+                # the numerical evaluation SymPy performs with exactly these options: options nobody asked for (chop=True zeroes 1.6e-19) are another function
+                opts = ",".join(f"{k_}={v_!r}" for k_, v_ in sorted((kwargs or {}).items()))
+                return _app("evalf" + (f"[{opts}]" if opts else ""), base)
             return NotImplemented
 
         def hook_attr(self, base, attr, n):
@@ -363,14 +365,15 @@ def _u6(run: Run) -> None:
                     return _var(f"si({v.val})")
             return NotImplemented
 
-    for evaluate in (False, True):
-        run.ob("U6", f"evaluate_expression[evaluate={evaluate}]")
+    for evaluate, options in ((False, {}), (True, {}), (True, {"n": 5})):
+        run.ob("U6", f"evaluate_expression[evaluate={evaluate}{', n=5' if options else ''}]")
         rd = R(cvm.tree, "convert.py", depth_limit=8)
         try:
-            got = rd.call("evaluate_expression", [expr], {"evaluate": evaluate})
+            got = rd.call("evaluate_expression", [expr], {"evaluate": evaluate, **options})
         except Raised as r_:
             got = r_
-        si = (lambda nm: _app("evalf", _var(f"si({nm})"))) if evaluate else (lambda nm: _var(f"si({nm})"))
+        ev_name = "evalf" + ("[" + ",".join(f"{k_}={v_!r}" for k_, v_ in sorted(options.items())) + "]" if options else "")  # the caller's options and no others
+        si = (lambda nm: _app(ev_name, _var(f"si({nm})"))) if evaluate else (lambda nm: _var(f"si({nm})"))
         want = _subst(expr, {"q1": si("q1"), "q2": si("q2"), "kilo": _var("factor(kilo)")})
         if not isinstance(got, _T):
             run.violate("U6", f"{CONV}:evaluate_expression:substitution", cvm, cvm.tree, f"evaluate_expression(evaluate={evaluate}) evaluates to {got!r}, not an expression")
